@@ -64,31 +64,14 @@ fn main() {
             let text = std::fs::read_to_string(path).expect("read replay file");
             let v: serde_json::Value = serde_json::from_str(&text).expect("parse replay file");
             let case: report::Case = serde_json::from_value(v["case"].clone()).expect("case");
-            let f: fn(&report::Case) -> Result<(), String> = match case.prop.as_str() {
-                "C01" => props::c01::replay,
-                "C02" => props::c02::replay,
-                "C03" => props::c03::replay,
-                "C04" => props::c04::replay,
-                "C05" => props::c05::replay,
-                "C06" => props::c06::replay,
-                "C07" => props::c07::replay,
-                "C08" => props::c08::replay,
-                "C09" => props::c09::replay,
-                "C10" => props::c10::replay,
-                "C15" => props::c15::replay,
-                "C16" => props::c16::replay,
-                "C17" => props::c17::replay,
-                "C18" => props::c18::replay,
-                "C19" => props::c19::replay,
-                "C12" => props::c12::replay,
-                "C13" => props::c13::replay,
-                "C14" => props::c14::replay,
-                "C11" => props::c11::replay,
-                "C20" => props::c20::replay,
-                p => {
-                    eprintln!("no replay for {p}");
+            let f: fn(&report::Case) -> Result<(), String> = if report::predecessors(&case).is_some() {
+                report::interference_check
+            } else {
+                if props::replay_fn(case.prop.as_str()).is_none() {
+                    eprintln!("no replay for {}", case.prop);
                     std::process::exit(2)
                 }
+                props::replay_seeded
             };
             let r1 = f(&case);
             let r2 = f(&case);
@@ -107,6 +90,41 @@ fn main() {
                     1
                 }
             }
+        }
+        "seq" => {
+            // child mode of the interference stage: cases from stdin, one after the other, in
+            // this thread; prints the verdict strings as a JSON array
+            let mut text = String::new();
+            use std::io::Read;
+            std::io::stdin().read_to_string(&mut text).expect("stdin");
+            let cases: Vec<report::Case> = serde_json::from_str(&text).expect("cases");
+            // all cases on THIS thread (thread-local state of the library survives from one case
+            // to the next - that is what the stage is after), hash keys owned from a fixed base
+            let base: u64 = args.get(2).and_then(|s| s.parse().ok()).unwrap_or(0x5eed);
+            if let Some(sh) = engine::shim() {
+                (sh.arm)(base);
+            }
+            let mut out: Vec<String> = Vec::new();
+            for c in &cases {
+                let mut c = c.clone();
+                if let Some(inner) = c.expect.get("__inner").cloned() {
+                    c.expect = inner;
+                } else if let Some(o) = c.expect.as_object_mut() {
+                    o.remove("__after");
+                    o.remove("__base");
+                }
+                c.kind = c.kind.trim_start_matches("interference/").to_string();
+                let r = match props::replay_fn(c.prop.as_str()) {
+                    Some(f) => f(&c),
+                    None => Err("no replay function".to_string()),
+                };
+                out.push(match r {
+                    Ok(()) => "OK".to_string(),
+                    Err(m) => m,
+                });
+            }
+            println!("{}", serde_json::to_string(&out).unwrap());
+            0
         }
         "probe" => {
             let text = std::fs::read_to_string(&args[2]).unwrap();
